@@ -130,6 +130,16 @@ CHECKS = [
         "Trusted: reference AVM, O2. Positions 0-3; 'cleared' only for relations stated in the configuration and single-field detectors.",
         "explicit-state exploration of the product of the configured contracts' concrete executions over a shared transaction group, per configuration of an exhaustively enumerated configuration space",
         "DESIGN.md 3/C13"),
+    chk("C16", "exploration",
+        "Every opcode of the independent v1-v8 table x every field of its group x immediate spellings (uint64 in decimal/hex/octal up to "
+        "2^64-1, named constants, 19 byte-string spellings: hex, base64/base32 in four syntaxes, quoted strings with spaces, //, escapes; "
+        "labels named like opcodes; lists) x 9 whitespace/comment layouts: parse_line must yield a supported instruction whose printed "
+        "form, read by an independent tokenizer/decoder, denotes the same opcode and immediates (integers by value, byte strings by "
+        "decoded value), parses back to the same class and text, and does not depend on layout; comments and the source line are kept; "
+        "unknown opcodes (incl. known opcodes with extra characters) stay unsupported verbatim; parse_teal records 1-based line numbers.",
+        "Trusted: immediate grammar of mc/spec.py, tokenizer mc/asm.py, byte-string decoders in mc/checks/c16.py. `method` round trip only.",
+        "exhaustive enumeration of a finite representative line grammar against an independent tokenizer/decoder and a round-trip relation",
+        "DESIGN.md 3/C16"),
     chk("C19", "exploration",
         "Every opcode x field of the independent v1-v8 table as a one-instruction program under #pragma version 1-8 and without pragma: the "
         "'not supported' diagnostics (instruction and field, with the introduction version they print) must appear exactly when the table "
